@@ -88,6 +88,7 @@ Fixpoint sexp_val (fuel : nat) (x : sexp) : option gval :=
     | Atom a => if atom_is a "nil" then Some GNil
                 else if atom_is a "strpanic" then Some (GStringer None)
                 else if atom_is a "strnilptr" then Some (GStringer None)
+                else if atom_is a "strselfpanic" then Some (GStringer None)
                 else if atom_is a "nilmap" then Some (GMap [])
                 else None
     | SList [Atom t; Atom v] =>
